@@ -80,6 +80,10 @@ class Match(Generic[T]):
     """
     The parent match if this is a nested match.
     """
+    type_inferred_from_variable: bool = field(init=False, default=False)
+    """
+    Whether the pattern was written without a type and took the type of the variable it was resolved for.
+    """
     variable_set_by_resolution: bool = field(init=False, default=False)
     """
     Whether the variable was created or handed in when the match was resolved (and not given by the user): a pattern
@@ -164,8 +168,11 @@ class Match(Generic[T]):
         if self.is_selected:
             self._update_selected_variables(self.variable)
 
-        if not self.type_:
+        if not self.type_ or self.type_inferred_from_variable:
+            # (again for a pattern written without a type that is used in a second pattern: the attribute it stands for
+            # there may have another type)
             self.type_ = self.variable._type_
+            self.type_inferred_from_variable = True
 
     def _update_selected_variables(self, variable: CanBehaveLikeAVariable):
         """
@@ -340,9 +347,12 @@ class AttributeAssignment:
         if (
             attr_type
             and self.assigned_value.type_
-            and self.attr._wrapped_field_.is_optional
+            and (
+                self.attr._wrapped_field_.is_optional
+                or self.attr._wrapped_field_.has_optional_elements
+            )
         ):
-            # None is not an instance of the matched type
+            # None (the missing value, a missing element) is not an instance of the matched type
             return True
         # not needed when every value of the declared type is an instance of the matched type anyway; the matched type
         # need not be a subclass of the declared one (a mixin that only some of the values inherit from)
